@@ -36,6 +36,10 @@ TRUSTED_BASE = [
     "the Python correspondence harness: scripted generator, probe model, in-memory h5py stand-in, comparison tolerances "
     "(exact for integers/booleans/indices/copied values, 1e-9 relative for computed floats)",
     "floats modelled as real numbers in the theorems (rounding, overflow, u<=ar at 2^-53 not covered)",
+    "where Props/<id>_src.v exists: the fail-closed Python-ast translators tools/py2coq.py / tools/py2coq_num.py, which regenerate "
+    "coq/theories/Gen/*.v from /repo's working tree on every run (Python's // and % rendered as Z.div / Z.modulo, chained comparisons as "
+    "conjunctions, decimal literals as exact rationals over the reals, self.<attr> reads as parameters); what they cannot render is omitted, "
+    "so that its theorem fails",
 ]
 
 
@@ -87,6 +91,24 @@ def ensure_build():
         if tlog:
             out = tlog + '\n' + out
         return ok, out, failed
+
+
+def source_tie(pid):
+    """which generated definitions this property's source-tie theorems are about (sha-256 of the generated files, untranslated targets)"""
+    if not os.path.exists(os.path.join(THEORIES, 'Props', pid + '_src.v')):
+        return None
+    src = open(os.path.join(THEORIES, 'Props', pid + '_src.v')).read()
+    out = dict(statements='coq/theories/Props/%s_src.v' % pid, generated={})
+    for fn in sorted(os.listdir(os.path.join(THEORIES, 'Gen'))):
+        if not fn.endswith('.v'):
+            continue
+        text = open(os.path.join(THEORIES, 'Gen', fn)).read()
+        if ('Gen.' + fn[:-2]) not in src:
+            continue
+        out['generated'][fn] = dict(sha256=hashlib.sha256(text.encode()).hexdigest(),
+                                    definitions=[d for d in re.findall(r'^Definition (\w+)', text, flags=re.M) if d in src],
+                                    not_translated=re.findall(r'^\(\* (\w+): NOT TRANSLATED', text, flags=re.M))
+    return out
 
 
 def build_concerns(pid, failed):
@@ -401,6 +423,7 @@ def finish(pid, tier, seed, t0, audit, out, assumptions=None, chk=None):
             exhaustive=bool(out.exhaustive),
             notes=out.notes,
             coqchk=chk,
+            source_tie=source_tie(pid),
         ),
         assumptions=assumptions or [],
         wall_s=round(time.time() - t0, 2),
